@@ -13,6 +13,8 @@ EXPLANATION = (
     "(R3) the hand-written variant-delegating CowBytes methods (split_to/split_off/truncate) treat the "
     "borrowed and the owned variant identically. Decides the structural clause only, not the equivalence "
     "with a Vec<u8> model over operation sequences.")
+EXPLANATION_ADDED = '(R4) no unpaired chunk mutation; (R5) chunk order of a mid-chunk split (abstract sequence HALF/TAIL) and tail index; (R6) the walk counter is decremented cumulatively; (R7) Buf::advance: length delta = amount advanced and the exhausted chunk is removed; (R8) Eq/Ord/Hash impls of CowBytes use the byte view only.'
+EXPLANATION = EXPLANATION + " Added while testing against seeded changes: " + EXPLANATION_ADDED
 ASSUMPTIONS = [
     "rustc MIR construction is faithful; Vec/Bytes/slice library calls behave as documented "
     "(index/split_at/split_off panic out of range)",
